@@ -158,7 +158,8 @@ def body_distance(ctx, case):
     ctx.check(typed_eq_list(a_in, a) and typed_eq_list(b_in, b), "distance_modifies_its_input", lambda: "a=%r b=%r" % (a_in, b_in))
     ctx.check(plain(d) == ref, "distance_wrong", lambda: "a=%r b=%r costs=%r got %r want %r" % (a, b, (sub, ins, dele), d, ref))
 
-    al = ctx.must("alignment_raises", sa.levenshtein_alignment, list(a), list(b), sub, ins, dele)
+    cont = tuple if (len(a) + len(b)) % 2 else list       # tuples are sequences too
+    al = ctx.must("alignment_raises", sa.levenshtein_alignment, cont(a), cont(b), sub, ins, dele)
     ctx.check(typed_eq_list(project(al, 0), a) and typed_eq_list(project(al, 1), b), "alignment_projection",
               lambda: "a=%r b=%r alignment=%r" % (a, b, al))
     c = pairs_cost(al, sub, ins, dele)
